@@ -1,6 +1,7 @@
 package core
 
 import (
+	"go/constant"
 	"go/token"
 	"go/types"
 
@@ -133,7 +134,7 @@ func IsAtomGet(f *ssa.Function) bool {
 		return false
 	}
 	n := FuncName(f)
-	return n == "fpgo.AtomBool.Get" || n == "atomic.Bool.Load"
+	return n == "fpgo.AtomBool.Get" || n == "atomic.Bool.Load" || stateAccessor(f) == "get"
 }
 
 func IsAtomSet(f *ssa.Function) bool {
@@ -141,7 +142,268 @@ func IsAtomSet(f *ssa.Function) bool {
 		return false
 	}
 	n := FuncName(f)
-	return n == "fpgo.AtomBool.Set" || n == "atomic.Bool.Store"
+	return n == "fpgo.AtomBool.Set" || n == "atomic.Bool.Store" || stateAccessor(f) == "set"
+}
+
+// FlagSetTrue: the call raises the flag given as its first argument: AtomBool.Set(true) / atomic.Bool.Store(true), or
+// the marking helper of a private state type (`x.state.markClosed()`).
+func FlagSetTrue(c *ssa.CallCommon) bool {
+	g := Callee(c)
+	if g == nil || !IsAtomSet(g) {
+		return false
+	}
+	if stateAccessor(g) == "set" {
+		return true
+	}
+	if len(c.Args) != 2 {
+		return false
+	}
+	k, ok := c.Args[1].(*ssa.Const)
+	return ok && k.Value != nil && k.Value.Kind() == constant.Bool && constant.BoolVal(k.Value)
+}
+
+// StateLoadCmp: v is `load(&x.f) != K` / `== K` where load is the raw atomic load of a private state type (its load
+// method or sync/atomic.LoadInt32 on its field) and the comparison is true for the type's set constant and false for the
+// zero value: returns the address loaded from (the flag) - the expression reads as "the flag is set".
+func StateLoadCmp(v ssa.Value) (ssa.Value, bool) {
+	b, ok := v.(*ssa.BinOp)
+	if !ok || (b.Op != token.EQL && b.Op != token.NEQ) {
+		return nil, false
+	}
+	side, kc := b.X, b.Y
+	if _, isK := kc.(*ssa.Const); !isK {
+		side, kc = b.Y, b.X
+	}
+	k, isK := kc.(*ssa.Const)
+	if !isK || k.Value == nil || k.Value.Kind() != constant.Int {
+		return nil, false
+	}
+	for {
+		if cv, okc := side.(*ssa.Convert); okc {
+			side = cv.X
+			continue
+		}
+		if ct, okc := side.(*ssa.ChangeType); okc {
+			side = ct.X
+			continue
+		}
+		break
+	}
+	call, isC := side.(*ssa.Call)
+	if !isC || len(call.Call.Args) != 1 {
+		return nil, false
+	}
+	g := Callee(&call.Call)
+	if g == nil || !stateRawAccess(g, false) {
+		return nil, false
+	}
+	rt := g.Signature.Recv().Type()
+	if pt, okp := rt.(*types.Pointer); okp {
+		rt = pt.Elem()
+	}
+	named, okn := rt.(*types.Named)
+	if !okn {
+		return nil, false
+	}
+	kset, okSet := stateSetConst(named, g.Prog)
+	if !okSet {
+		return nil, false
+	}
+	kk := k.Int64()
+	onSet := (kset == kk) == (b.Op == token.EQL)
+	onZero := (0 == kk) == (b.Op == token.EQL)
+	if onSet && !onZero {
+		return call.Call.Args[0], true
+	}
+	return nil, false
+}
+
+var stateAccMemo = map[*ssa.Function]string{}
+
+// stateAccessor recognises the two helpers of a private two-state type that stands for a boolean flag
+// (`type lifecycle uint8` / `struct{ state int32 }` with `isClosed()` and `markClosed()`):
+//   "set": an unexported method whose only effect is to store one non-zero constant K into its receiver (plain or
+//          atomic.StoreInt32/StoreUint32), the same K in every such method of the type;
+//   "get": an unexported method without effects returning `load(receiver) == K'` / `!= K'` that is true for K and false
+//          for the zero value.
+// The zero value of the type is the not-set state. "" otherwise.
+func stateAccessor(f *ssa.Function) string {
+	if r, ok := stateAccMemo[f]; ok {
+		return r
+	}
+	stateAccMemo[f] = ""
+	if f == nil || f.Signature.Recv() == nil || len(f.Blocks) != 1 || f.Object() == nil || f.Object().Exported() || f.Pkg == nil || len(f.Params) < 1 || len(f.Params) > 2 {
+		return ""
+	}
+	if path := f.Pkg.Pkg.Path(); len(path) < len(ModPath) || path[:len(ModPath)] != ModPath {
+		return ""
+	}
+	rt := f.Signature.Recv().Type()
+	if pt, ok := rt.(*types.Pointer); ok {
+		rt = pt.Elem()
+	}
+	named, ok := rt.(*types.Named)
+	if !ok || named.Obj().Exported() {
+		return ""
+	}
+	kset, okSet := stateSetConst(named, f.Prog)
+	if !okSet {
+		return ""
+	}
+	if k, isSet := stateStores(f); isSet {
+		if k == kset {
+			stateAccMemo[f] = "set"
+		}
+		return stateAccMemo[f]
+	}
+	// reader
+	ret, isRet := f.Blocks[0].Instrs[len(f.Blocks[0].Instrs)-1].(*ssa.Return)
+	if !isRet || len(ret.Results) != 1 || len(f.Params) != 1 {
+		return ""
+	}
+	for _, ins := range f.Blocks[0].Instrs {
+		switch x := ins.(type) {
+		case *ssa.Store, *ssa.MapUpdate, *ssa.Send, *ssa.Go, *ssa.Defer:
+			if st, isSt := x.(*ssa.Store); isSt {
+				if _, isAl := st.Addr.(*ssa.Alloc); isAl {
+					continue
+				}
+			}
+			return ""
+		case *ssa.Call:
+			if n := StdCallee(&x.Call); n != "sync/atomic.LoadInt32" && n != "sync/atomic.LoadUint32" && n != "sync/atomic.LoadInt64" && !stateRawAccess(Callee(&x.Call), false) {
+				return ""
+			}
+		}
+	}
+	b, isB := Resolve(ret.Results[0]).(*ssa.BinOp)
+	if !isB || (b.Op != token.EQL && b.Op != token.NEQ) {
+		return ""
+	}
+	kc, isK := b.Y.(*ssa.Const)
+	if !isK {
+		kc, isK = b.X.(*ssa.Const)
+	}
+	if !isK || kc.Value == nil || kc.Value.Kind() != constant.Int {
+		return ""
+	}
+	k := kc.Int64()
+	onSet := (kset == k) == (b.Op == token.EQL)
+	onZero := (0 == k) == (b.Op == token.EQL)
+	if onSet && !onZero {
+		stateAccMemo[f] = "get"
+	}
+	return stateAccMemo[f]
+}
+
+// stateRawAccess: g is the raw atomic load (store=false: `return T(atomic.LoadInt32((*int32)(s)))`) or raw atomic store
+// (store=true: `atomic.StoreInt32((*int32)(s), int32(v))` of its parameter) method of a state type.
+func stateRawAccess(g *ssa.Function, store bool) bool {
+	if g == nil || len(g.Blocks) != 1 || g.Signature.Recv() == nil || g.Object() == nil || g.Object().Exported() {
+		return false
+	}
+	n := 0
+	for _, ins := range g.Blocks[0].Instrs {
+		switch x := ins.(type) {
+		case *ssa.Call:
+			name := StdCallee(&x.Call)
+			if store {
+				if name != "sync/atomic.StoreInt32" && name != "sync/atomic.StoreUint32" && name != "sync/atomic.StoreInt64" {
+					return false
+				}
+				v := x.Call.Args[1]
+				for {
+					if cv, ok := v.(*ssa.Convert); ok {
+						v = cv.X
+						continue
+					}
+					if ct, ok := v.(*ssa.ChangeType); ok {
+						v = ct.X
+						continue
+					}
+					break
+				}
+				if _, isK := v.(*ssa.Const); len(g.Params) != 2 || (v != ssa.Value(g.Params[1]) && !isK) {
+					return false // (a constant: the parameter was specialised to the only value ever passed)
+				}
+			} else if name != "sync/atomic.LoadInt32" && name != "sync/atomic.LoadUint32" && name != "sync/atomic.LoadInt64" {
+				return false
+			}
+			n++
+		case *ssa.Store, *ssa.MapUpdate, *ssa.Send, *ssa.Go, *ssa.Defer, *ssa.If:
+			return false
+		}
+	}
+	if store {
+		return n == 1 && g.Signature.Results().Len() == 0
+	}
+	return n == 1 && len(g.Params) == 1 && g.Signature.Results().Len() == 1
+}
+
+// stateStores: f's only effect is one store of an integer constant into its receiver; returns the constant.
+func stateStores(f *ssa.Function) (int64, bool) {
+	var k int64
+	n := 0
+	for _, ins := range f.Blocks[0].Instrs {
+		switch x := ins.(type) {
+		case *ssa.Store:
+			if _, isAl := x.Addr.(*ssa.Alloc); isAl {
+				continue
+			}
+			c, ok := x.Val.(*ssa.Const)
+			if !ok || c.Value == nil || c.Value.Kind() != constant.Int {
+				return 0, false
+			}
+			k, n = c.Int64(), n+1
+		case *ssa.Call:
+			name := StdCallee(&x.Call)
+			if name != "sync/atomic.StoreInt32" && name != "sync/atomic.StoreUint32" && name != "sync/atomic.StoreInt64" && !stateRawAccess(Callee(&x.Call), true) {
+				return 0, false
+			}
+			c, ok := x.Call.Args[1].(*ssa.Const)
+			if !ok || c.Value == nil {
+				if cv, isCv := x.Call.Args[1].(*ssa.Convert); isCv {
+					c, ok = cv.X.(*ssa.Const)
+				}
+			}
+			if !ok || c == nil || c.Value == nil || c.Value.Kind() != constant.Int {
+				return 0, false
+			}
+			k, n = c.Int64(), n+1
+		case *ssa.MapUpdate, *ssa.Send, *ssa.Go, *ssa.Defer:
+			return 0, false
+		}
+	}
+	if f.Signature.Results().Len() != 0 {
+		return 0, false
+	}
+	return k, n == 1 && k != 0
+}
+
+// stateSetConst: the single non-zero constant the setters of the state type store.
+func stateSetConst(named *types.Named, prog *ssa.Program) (int64, bool) {
+	var k int64
+	found := false
+	for _, recv := range []types.Type{named, types.NewPointer(named)} {
+		ms := prog.MethodSets.MethodSet(recv)
+		for i := 0; i < ms.Len(); i++ {
+			fo, ok := ms.At(i).Obj().(*types.Func)
+			if !ok || fo.Exported() {
+				continue
+			}
+			g := prog.FuncValue(fo)
+			if g == nil || len(g.Blocks) != 1 || len(g.Params) < 1 || len(g.Params) > 2 {
+				continue
+			}
+			if kk, isSet := stateStores(g); isSet {
+				if found && kk != k {
+					return 0, false
+				}
+				k, found = kk, true
+			}
+		}
+	}
+	return k, found
 }
 
 var thinMemo = map[*ssa.Function]ssa.Value{}
@@ -288,14 +550,23 @@ func transparentStruct(t types.Type) bool {
 	if o.Obj().Exported() {
 		return false
 	}
-	// a grouping struct may carry unexported helper methods (they then count as helpers of the owner)
+	// a grouping struct may carry unexported helper methods (they then count as helpers of the owner) - but a type whose
+	// methods are the reader / marker of a two-state flag is that flag, not a group
 	for i := 0; i < o.NumMethods(); i++ {
 		if o.Method(i).Exported() {
 			return false
 		}
+		if theProg != nil {
+			if g := theProg.FuncValue(o.Method(i)); g != nil && stateAccessor(g) != "" {
+				return false
+			}
+		}
 	}
 	return true
 }
+
+// theProg: the SSA program being analysed (set by Load; lets type-level helpers look at method bodies).
+var theProg *ssa.Program
 
 // FieldOwner returns the value a field is selected from, looking through grouping structs: for `q.signals.loadCh` the
 // owner is q.
